@@ -119,23 +119,47 @@ def normspec(s):
     return s
 
 
+class UnderTestDeviation(Exception):
+    """the code under test (not the harness) prevented a case from being set up: reported as a violation"""
+
+    def __init__(self, symptom, detail):
+        super().__init__(f"{symptom}: {detail}")
+        self.symptom, self.detail = symptom, detail
+
+
+def raised_in_library(e: BaseException) -> bool:
+    """does the innermost python frame of the traceback belong to molli (and not to the harness)?"""
+    tb, last = e.__traceback__, None
+    while tb is not None:
+        last, tb = tb.tb_frame.f_code.co_filename, tb.tb_next
+    return last is not None and (os.sep + "molli" + os.sep) in last and (os.sep + "mc" + os.sep + "props") not in last
+
+
 def build(spec):
+    """-> (object, reference frames, holds_spec).
+    The reference for the object -> text -> object direction is what the OBJECT holds: normally exactly the
+    spec; if the constructor stored something else (e.g. another dtype) the object's own values are used and
+    the text -> object direction is judged separately (layer RF / UNITS) against the numbers in the file."""
     kind = spec["kind"]
-    atoms = [Atom(Element(z), atype=AtomType(t)) for z, t in spec["atoms"]]
-    n, k = len(atoms), len(spec["frames"])
+    n, k = len(spec["atoms"]), len(spec["frames"])
     xyz = np.array(spec["frames"], dtype=float).reshape(k, n, 3)
-    if kind == "E":
-        obj = ConformerEnsemble(Molecule(atoms, name=spec["name"], coords=xyz[0]), n_conformers=k, coords=xyz)
-        ex = xyz
-    else:
-        obj = {"G": CartesianGeometry, "S": Structure, "M": Molecule}[kind](atoms, name=spec["name"], coords=xyz[0])
-        ex = xyz[0]
-    co = np.asarray(obj.coords, dtype=float)
-    ok = obj.n_atoms == n and co.shape == ex.shape and bool(np.all((co == ex) | (np.isnan(co) & np.isnan(ex))))
-    ok = ok and [int(a.element) for a in obj.atoms] == [a[0] for a in spec["atoms"]]
-    if not ok:
-        raise HarnessError(f"could not build the geometry of spec {spec!r}")
-    return obj
+    try:
+        atoms = [Atom(Element(z), atype=AtomType(t)) for z, t in spec["atoms"]]
+        if kind == "E":
+            obj = ConformerEnsemble(Molecule(atoms, name=spec["name"], coords=xyz[0]), n_conformers=k, coords=xyz)
+        else:
+            obj = {"G": CartesianGeometry, "S": Structure, "M": Molecule}[kind](atoms, name=spec["name"], coords=xyz[0])
+        co = np.array(obj.coords, dtype=float)
+        els = [int(a.element) for a in obj.atoms]
+        nat = obj.n_atoms
+    except Exception as e:
+        raise UnderTestDeviation(f"constructor-raised-{exc(e)}", f"{KINDNAME[kind]} could not be constructed: {exc(e)}: {e}")
+    ex = xyz if kind == "E" else xyz[0]
+    if nat != n or els != [a[0] for a in spec["atoms"]] or co.shape != ex.shape:
+        raise UnderTestDeviation("constructed-object-has-other-atoms", f"{KINDNAME[kind]}: asked for Z={[a[0] for a in spec['atoms']]} x {ex.shape}, got Z={els} x {co.shape}")
+    holds = bool(np.all((co == ex) | (np.isnan(co) & np.isnan(ex))))
+    ref = spec["frames"] if holds else (co.tolist() if kind == "E" else [co.tolist()])
+    return obj, ref, holds
 
 
 # =================================================================================================
@@ -346,7 +370,15 @@ def check_geom(ctx, gspec, kinds=None):
     writers = writers_used = WRITERS if fmt is None else [w for w in WRITERS if w != "dumps_xyz"]
     for kind in kinds:
         spec = dict(gspec, kind=kind)
-        obj = build(spec)
+        try:
+            obj, ref, holds = build(spec)
+        except UnderTestDeviation as e:
+            wcells.setdefault("setup-" + e.symptom, set()).add((kind, "-"))
+            detail.setdefault("setup-" + e.symptom, e.detail)
+            continue
+        if not holds:
+            ctx.add_note("constructed_object_stores_other_coordinate_values_than_requested")
+            spec = dict(spec, frames=ref)
         texts = {}
         for w in writers:
             ctx.count(transitions=1)
@@ -380,6 +412,9 @@ def check_geom(ctx, gspec, kinds=None):
     case = {"layer": "RT", "gspec": gspec, "kinds": kinds}
     for sym in sorted(wcells):
         for gk, gw in product_groups(wcells[sym], 2):
+            if gw == ["-"]:
+                ctx.violation(f"rt|{ncls}{fcls}|{sym}|k={_desc([KINDNAME[k] for k in gk], [KINDNAME[k] for k in kinds])}", f"{KINDNAME[gk[0]]} ({n} atoms): {detail[sym]}", case)
+                continue
             ctx.violation(
                 f"rt|{ncls}{fcls}|{sym}|k={_desc([KINDNAME[k] for k in gk], [KINDNAME[k] for k in kinds])}|w={_desc(gw, writers_used)}",
                 f"{KINDNAME[gk[0]]}.{gw[0]} of a valid geometry ({n} atoms): {detail[sym]}",
@@ -698,7 +733,7 @@ def het_text(frames, source):
         return "".join(out)
     cname = source.split(":")[1].split(".")[0]
     kind = {v: k for k, v in KINDNAME.items()}[cname]
-    return "".join(build(mkspec(kind, f"f{fi}", fr["atoms"], [fr["xyz"]])).dumps_xyz() for fi, fr in enumerate(frames))
+    return "".join(build(mkspec(kind, f"f{fi}", fr["atoms"], [fr["xyz"]]))[0].dumps_xyz() for fi, fr in enumerate(frames))
 
 
 def check_hetero(ctx, frames):
